@@ -25,7 +25,7 @@ contract('saml2_tophat.ident:code', types={'item': NID}, returns='Str', pure=Tru
          defines=['result == code_of(item)'],      # names the key for the cache contracts (C19)
          modifies=[], clauses_from={'C18': ['C18-encoding']})
 
-contract('saml2_tophat.ident:decode', pure=True, trusted=True, params=['txt'], returns=NID, ensures=['fresh(result)'],
+contract('saml2_tophat.ident:decode', trusted=True, params=['txt'], returns=NID, ensures=['fresh(result)'],
          note='ASSUMED: inverse of code on the encoded form (bounded stand-in ident_history checks decode(code(n)) == n natively)')
 
 contract(IDB + '.find_local_id', types={'name_id': NID}, returns='Opt(Str)', pure=True,
